@@ -172,3 +172,14 @@ let () =
                | _ -> A "get-failed")
            | _ -> A "err")
         | _ -> failwith "impossible") | _ -> failwith "args")
+
+(* decode then encode inside the model (C12) *)
+let () =
+  reg "decode_encode" (function [b] ->
+      (match decode (hex_atom b) with
+       | Ok m -> L [A "decoded"; res_sx (fun o -> [sx_hex o]) (encode m)]
+       | Err -> A "err" | Fault -> A "fault" | OutOfFuel -> A "outoffuel") | _ -> failwith "args");
+  reg "eap_decode_encode" (function [b] ->
+      (match eap_unmarshal (hex_atom b) with
+       | Ok e -> L [A "decoded"; res_sx (fun o -> [sx_hex o]) (eap_marshal e)]
+       | Err -> A "err" | Fault -> A "fault" | OutOfFuel -> A "outoffuel") | _ -> failwith "args")
